@@ -40,6 +40,16 @@ def handleLoopsX (j : Json) : R Json := do
   let b ← ratOf (← getF j "b")
   pure (Json.mkObj [("grow", Json.bool (decide (growStopsX a b))), ("sys", Json.bool (decide (sysContinuesX a b)))])
 
+/-- the translated `Mixture` setters on one mixture -/
+def handleMixSetX (j : Json) : R Json := do
+  let m ← mixOf (← getF j "m")
+  let v ← ratOf (← getF j "v")
+  let which ← strOf (← getF j "which")
+  let r := if which == "sys" then setSysX m v else setRelX m v
+  match r with
+  | .error e => pure (Json.mkObj [("ok", Json.bool false), ("err", Json.str ((reprStr e).replace "GBS.EErr." ""))])
+  | .ok m' => pure (Json.mkObj [("ok", Json.bool true), ("m", mixToJson m')])
+
 def handleGen (j : Json) : R Json := do
   let els ← listOf elementOf (← getF j "els")
   let ev ← listOf eventOf (← getF j "ev")
@@ -265,6 +275,7 @@ def handle (j : Json) : R Json := do
   | "TABLES" => handleTables j
   | "CHOOSEX" => handleChooseX j
   | "LOOPSX" => handleLoopsX j
+  | "MIXSETX" => handleMixSetX j
   | _ => throw s!"unknown op {op}"
 
 def handleLine (line : String) : String :=
